@@ -155,9 +155,11 @@ local function _lua_invoke(mod_name, fn_name, frame, page_title, timeout)
     end
 
     local mod_env = _mw_clone(_python_top_env() or _G)
-    _python_append_env(mod_env)
-    -- Set time limit for execution of the Lua code
+    -- Set time limit for execution of the Lua code.  This must be done before
+    -- the environment is pushed: only the outermost invocation starts the
+    -- clock (see _lua_set_timeout).
     _lua_set_timeout(timeout)
+    _python_append_env(mod_env)
 
     -- Load the module.  Note that the initializations above must be done before
     -- loading the module, as the module could refer to, e.g., page title
